@@ -23,13 +23,14 @@ REAL_OK = {"a", "u", "k", "ra", "ru", "rk", "r9", "ry"}   # may be made by the R
 
 # deviations of the code from the statement: signature -> deviation constant of VcLife.tla
 EXPECTED = {
-    ("stored-invalid", "malformed"): "ValidateOnStore",
-    ("stored-invalid", "foreign-id"): "ValidateOnStore",
-    ("valid-not-stored", "blocked-by-foreign-id"): "ValidateOnStore",
-    ("transient-failure-dropped", "fault"): "TransientRetried",
-    # UnknownKeyRetried and ContextErrorsSeen are TRUE since the repairs f131123 / 7b63384 in /repo: their signatures
-    # ("transient-failure-dropped" nokey / ctxdown) are ordinary violations again
-    ("id-two-contents", "overlap"): "StoreAtomic",
+    # ValidateOnStore is TRUE since the repair of X07-stored-malformed / -foreign-id / -squatter-blocks-genuine in /repo
+    # (vcr.StoreCredential runs the type validator): "stored-invalid" malformed / foreign-id and "valid-not-stored"
+    # blocked-by-foreign-id are ordinary violations again
+    # TransientRetried, UnknownKeyRetried and ContextErrorsSeen are TRUE since the repairs of X07-store-error-dropped /
+    # f131123 / 7b63384 in /repo: their signatures ("transient-failure-dropped" fault / nokey / ctxdown) are ordinary
+    # violations again
+    # StoreAtomic is TRUE since the repair of X07-store-race in /repo (the id look-up is repeated under a lock that is held
+    # until the credential is written): "id-two-contents" overlap is an ordinary violation again
 }
 
 
@@ -128,11 +129,11 @@ def directed_scripts():
     out.append(dict(id="d-late-key", steps=[D("k"), D("rk"), dict(a="LearnKey", i="I3"), dict(a="Trust", i="I3"), dict(a="Restart"), dict(a="Replay", t="k"), dict(a="Replay", t="rk")]))
     out.append(dict(id="d-late-key-reprocess", steps=[D("rk"), D("k"), dict(a="LearnKey", i="I3"), dict(a="Reprocess", t="k"), dict(a="Reprocess", t="rk"), dict(a="Trust", i="I3")]))
     # squatter first, then the genuine credential and its revocation
-    out.append(dict(id="d-squat-first", steps=[D("q"), D("a"), D("ra"), dict(a="Restart"), dict(a="Replay", t="a"), dict(a="Trust", i="I2")]))
+    out.append(dict(id="d-squat-first", steps=[D("q"), D("a"), D("ra"), dict(a="Restart"), dict(a="Replay", t="q"), dict(a="Trust", i="I2")]))
     out.append(dict(id="d-genuine-first", steps=[D("a"), D("q"), D("m"), D("rf"), dict(a="Restart")]))
     # store faults and the flaky context
-    out.append(dict(id="d-fault-cred", steps=[D("a", f=True), D("ra"), dict(a="Restart"), dict(a="Replay", t="a")]))
-    out.append(dict(id="d-fault-rev", steps=[D("a"), D("ra", f=True), dict(a="Restart"), dict(a="Replay", t="ra")]))
+    out.append(dict(id="d-fault-cred", steps=[D("a", f=True), dict(a="Retry", t="a"), D("ra"), dict(a="Restart")]))
+    out.append(dict(id="d-fault-rev", steps=[D("a"), D("ra", f=True), dict(a="Retry", t="ra"), dict(a="Restart")]))
     out.append(dict(id="d-ctx", steps=[D("y"), D("z"), D("j"), dict(a="Retry", t="y"), dict(a="CtxUp"), dict(a="Retry", t="y"), D("ry"), dict(a="Restart")]))
     # overlapping handler calls for one id: a is held between look-up and write while b is delivered completely
     out.append(dict(id="d-race-ab", steps=[dict(a="Begin", t="a"), D("b"), dict(a="Finish", t="a"), D("ra"), dict(a="Restart")]))
